@@ -56,6 +56,12 @@ Theorem C17_concat (n : nat) p (c : cfg (concat_op n)) :
 Proof. exact (fun H Hc => pk_c17 (concat_protocol H Hc)). Qed.
 Print Assumptions C17_concat.
 
+(** flatten: every emitted inner is a fresh source (guard [g_flatten]) *)
+Theorem C17_flatten p (c : cfg flatten_op) :
+  std p -> reach p g_flatten c -> no_panic (trace c).
+Proof. exact (fun H Hc => pk_c17 (flatten_protocol H Hc)). Qed.
+Print Assumptions C17_flatten.
+
 (** share, for every number of sinks, as C12 quantifies it (no nested fan-out: guard [g_share]) *)
 Theorem C17_share p (c : cfg share_op) :
   share_regime p -> reach p g_share c -> no_panic (trace c).
